@@ -78,7 +78,12 @@ theorem dataCols_rows_ragged (cs : List String) (rs : List (List Cell)) (hcs : c
       simp only
       rw [bcast_self rfl, bcast_self (by simp), ofRows_eq_zip]
       simp only [List.map_map, Function.comp_def]
-    simp only [dataCols, hz, hz2, ofPairs_self_of_nodup _ hnd]
+    have hm : headerMisfit cs ((List.range cs.length).map fun j =>
+        (r0 :: rest).map fun r => (bcast cs.length r).getD j Cell.none) = false := by
+      unfold headerMisfit
+      simp only [List.length_map, List.length_range]
+      by_cases h : cs.length = 1 <;> simp [h]
+    simp only [dataCols, hz, hm, Bool.false_eq_true, if_false, hz2, ofPairs_self_of_nodup _ hnd]
   · -- every row has length 1: one transposed column, repeated under every header name
     have h1 : ∀ r ∈ r0 :: rest, r.length = 1 := by
       intro r hr
@@ -110,7 +115,9 @@ theorem dataCols_rows_ragged (cs : List String) (rs : List (List Cell)) (hcs : c
         apply List.map_congr_left
         intro r hr
         rw [bcast_getD_of_one (h1 r hr) hj, bcast_self (h1 r hr)]
-    simp only [dataCols, hz, hz2, ofPairs_self_of_nodup _ hnd]
+    have hm : headerMisfit cs [(r0 :: rest).map fun r => (bcast 1 r).getD 0 Cell.none] = false := by
+      simp [headerMisfit]
+    simp only [dataCols, hz, hm, Bool.false_eq_true, if_false, hz2, ofPairs_self_of_nodup _ hnd]
 
 /-- a row whose length is neither the header's nor 1 (header of `c ≠ 1` names): one of the two `zipper`s
 raises `ValueError` -/
@@ -144,7 +151,10 @@ theorem dataCols_rows_bad (cs : List String) (rs : List (List Cell)) (hc : cs.le
         simp only [List.length_map, List.length_range]
         exact lens_pair_misfit hc (by omega) (by omega)
       rw [this]
-    simp only [dataCols, hz, hz2]
+    have hm : headerMisfit cs ((List.range n).map fun j =>
+        (r0 :: rest).map fun r => (bcast n r).getD j Cell.none) = false := by
+      simp [headerMisfit, hc]
+    simp only [dataCols, hz, hm, Bool.false_eq_true, if_false, hz2]
 
 /-- the rest of the constructor after the keyed reading gave a table `ofRows cs rows` over the distinct,
 non-empty header `cs`: the `columns=` restriction and the final `lens` change nothing -/
@@ -232,30 +242,55 @@ theorem construct_of_dataCols_single {data : Data} (k : String) (v : List Cell)
     Option.getD_some, h1]
   rw [finish_rect hr]
 
-/-- the keyed reading of rows under a one-name header -/
+/-- the common length, when it is not 1, is the length of one of the lists -/
+theorem lens_ok_mem {ls : List Nat} {n : Nat} (h : lens ls = .ok n) (hn : n ≠ 1) (hne : ls ≠ []) : n ∈ ls := by
+  unfold lens at h
+  have he : ls.isEmpty = false := by cases ls <;> simp_all
+  simp only [he, Bool.false_eq_true, if_false] at h
+  split at h
+  · simp only [Except.ok.injEq] at h; exact absurd h.symm hn
+  · rename_i m rest hf
+    split at h
+    · simp only [Except.ok.injEq] at h
+      subst h
+      have : m ∈ ls.filter (· != 1) := by rw [hf]; simp
+      exact (List.mem_filter.1 this).1
+    · cases h
+
+/-- the keyed reading of rows under a one-name header (repaired code, fix C01-H2): rows of several cells are a `ValueError`; rows of one
+cell (or none) are read as before -/
 theorem dataCols_rows_header1 (k : String) (rs : List (List Cell)) (hne : rs ≠ []) (n : Nat)
     (hl : lens (rs.map (·.length)) = .ok n) :
     dataCols (.rows rs) (some [k]) =
-      some (.ok (if n = 0 then [] else [(k, rs.map fun r => (bcast n r).getD (n - 1) .none)])) := by
+      some (if n > 1 then .error .value else
+        .ok (if n = 0 then [] else [(k, rs.map fun r => (bcast n r).getD (n - 1) .none)])) := by
   obtain ⟨r0, rest, rfl⟩ := List.exists_cons_of_ne_nil hne
   have hz : zipper Cell.none (r0 :: rest) =
       .ok ((List.range n).map fun j => (r0 :: rest).map fun r => (bcast n r).getD j .none) := by
     unfold zipper
     rw [hl]
-  have hz2 : zipper2 [k] ((List.range n).map fun j => (r0 :: rest).map fun r => (bcast n r).getD j .none) =
-      .ok ((List.replicate n k).zip
-        ((List.range n).map fun j => (r0 :: rest).map fun r => (bcast n r).getD j .none)) := by
-    unfold zipper2
-    simp only [List.length_singleton, List.length_map, List.length_range, lens_pair_one_left]
-    rw [bcast_singleton, bcast_self (by simp)]
-  simp only [dataCols, hz, hz2]
-  have := ofPairs_same_key k ((List.range n).map fun j => (r0 :: rest).map fun r => (bcast n r).getD j .none)
-  simp only [List.length_map, List.length_range] at this
-  rw [this]
-  cases n with
-  | zero => rfl
-  | succ m =>
-    simp [List.range_succ, List.getLast?_append]
+  by_cases hn : n > 1
+  · have hm : headerMisfit [k] ((List.range n).map fun j =>
+        (r0 :: rest).map fun r => (bcast n r).getD j Cell.none) = true := by
+      simp [headerMisfit, hn]
+    simp only [dataCols, hz, hm, if_true, hn]
+  · have hm : headerMisfit [k] ((List.range n).map fun j =>
+        (r0 :: rest).map fun r => (bcast n r).getD j Cell.none) = false := by
+      simp [headerMisfit]; omega
+    have hz2 : zipper2 [k] ((List.range n).map fun j => (r0 :: rest).map fun r => (bcast n r).getD j .none) =
+        .ok ((List.replicate n k).zip
+          ((List.range n).map fun j => (r0 :: rest).map fun r => (bcast n r).getD j .none)) := by
+      unfold zipper2
+      simp only [List.length_singleton, List.length_map, List.length_range, lens_pair_one_left]
+      rw [bcast_singleton, bcast_self (by simp)]
+    simp only [dataCols, hz, hm, Bool.false_eq_true, if_false, hz2, hn]
+    have := ofPairs_same_key k ((List.range n).map fun j => (r0 :: rest).map fun r => (bcast n r).getD j .none)
+    simp only [List.length_map, List.length_range] at this
+    rw [this]
+    cases n with
+    | zero => rfl
+    | succ m =>
+      simp [List.range_succ, List.getLast?_append]
 
 end Table
 end Pyg
